@@ -3,7 +3,7 @@ from vlib import ref_token
 
 # candidates: printable non-alphanumerics and a few control characters
 SEG_CANDS = list('~!\'$%&?@[]{}|<>=;`^+#') + ['\n', '\x1c', '\x1e', '\x15']
-ELE_CANDS = list('*|^+!,;=#%&@?<>') + ['\x1d', '\x1f']
+ELE_CANDS = list('*|^+!,;=#%&@?<>{}') + ['\x1d', '\x1f']
 SUB_B = list(':!&()+,./;?=\'"*-')                    # component separator must be in the basic character set (all its punctuation, incl. * and -)
 SUB_E = SUB_B + list('\\|<>~@[]_{}#$%')              # ... or the extended one when charset E
 EOLS = ['', '\n', '\r\n', '\r', '\n\n']
@@ -44,7 +44,7 @@ def data_chars(text):
     return chars
 
 
-def pick_terms(rng, text, charset='B', ctrl_ele=False):
+def pick_terms(rng, text, charset='B', ctrl_ele=False, fmt_ele=False):
     """ctrl_ele: take the element separator from the characters Python's str methods treat as whitespace (FS/GS/RS/US, tab)"""
     used = data_chars(text)
     segc = [c for c in SEG_CANDS if c not in used]
@@ -52,6 +52,9 @@ def pick_terms(rng, text, charset='B', ctrl_ele=False):
     elec = [c for c in ELE_CANDS if c not in used and c != seg_t]
     if ctrl_ele:
         elec = [c for c in ['\x1c', '\x1d', '\x1e', '\x1f', '\t'] if c not in used and c != seg_t] or elec
+    if fmt_ele:
+        # characters that mean something to str.format / % formatting, should a message ever be formatted twice
+        elec = [c for c in ['{', '}', '%'] if c not in used and c != seg_t] or elec
     ele_t = rng.choice(elec)
     subc = [c for c in (SUB_E if charset == 'E' else SUB_B) if c not in used and c not in (seg_t, ele_t)]
     sub_t = rng.choice(subc)
